@@ -18,7 +18,7 @@ MUTATING = {"mkdirat", "mkdir", "renameat", "renameat2", "rename", "unlink", "un
             "writev", "pwritev", "copy_file_range", "sendfile", "ftruncate", "truncate", "linkat", "link", "symlinkat",
             "symlink", "fchmod", "fchmodat", "chmod", "fchown", "fchownat", "utimensat", "mknodat", "fallocate",
             "creat"}
-UNMODELLED = {"ftruncate", "truncate", "linkat", "link", "symlinkat", "symlink", "fchmod", "fchmodat", "chmod",
+UNMODELLED = {"ftruncate", "truncate", "symlinkat", "symlink", "fchmod", "fchmodat", "chmod",
               "fchown", "fchownat", "utimensat", "mknodat", "fallocate", "sendfile", "writev", "pwritev"}
 HMAC1 = bytes((0x11 + i * 7) & 0xff for i in range(32))
 T0 = 1500000000
@@ -261,6 +261,12 @@ def events_of(case, region, upto=None):
                 evs.append({"ev": "rename", "a": a, "b": b})
             else:
                 evs.append({"ev": "foreign", "d": "rename %s -> %s" % (r["strs"][0], r["strs"][1])})
+        elif name in ("linkat", "link"):
+            a, b = case.role(r["strs"][0]), case.role(r["strs"][1])
+            if a in ("T", "F", "G") and b in ("F", "G"):
+                evs.append({"ev": "link", "a": a, "b": b})
+            else:
+                evs.append({"ev": "foreign", "d": "link %s -> %s" % (r["strs"][0], r["strs"][1])})
         elif name in ("unlinkat", "unlink", "rmdir"):
             role = case.role(r["strs"][0])
             if role in ("T", "F", "G"):
@@ -382,7 +388,7 @@ def standard_cases(thorough=False):
 
 # ----------------------------------------------------------------------------- orchestration
 INV_PROP = {"CrashAtomic": "C08", "NoVisibleBeforeDurable": "C09", "AckDurableT": "C09",
-            "FailureChangesNothing": "C15", "TmpEmptyAfterOp": "C16", "OnlyOwnPaths": "C03"}
+            "FailureChangesNothing": "C15", "TmpEmptyAfterOp": "C16", "OneFilePerUser": "C16", "OnlyOwnPaths": "C03"}
 
 
 TRACE_CFG = """SPECIFICATION TraceSpec
@@ -393,7 +399,7 @@ POSTCONDITION TraceAccepted
 CHECK_DEADLOCK FALSE
 """
 PROP_INVS = {"C08": ["CrashAtomic"], "C09": ["NoVisibleBeforeDurable", "AckDurableT"], "C15": ["FailureChangesNothing"],
-             "C16": ["TmpEmptyAfterOp"], "C03": ["OnlyOwnPaths"]}
+             "C16": ["TmpEmptyAfterOp", "OneFilePerUser"], "C03": ["OnlyOwnPaths"]}
 
 
 def tlc_trace(ctx, lines, name):
